@@ -82,6 +82,16 @@ pub fn handle_xadd(storage: &Arc<StorageEngine>, db: usize, parts: &[RespFrame])
     Ok(RespFrame::BulkString(Some(Arc::new(result_id.to_string().into_bytes()))))
 }
 
+/// Parse an XRANGE/XREVRANGE bound: "-" and "+" stand for the smallest and the greatest ID
+/// and are accepted in either position
+fn parse_range_bound(s: &str) -> Option<StreamId> {
+    match s {
+        "-" => Some(StreamId::min()),
+        "+" => Some(StreamId::max()),
+        _ => StreamId::from_string(s),
+    }
+}
+
 /// Handle XRANGE command - Get entries in a range
 pub fn handle_xrange(storage: &Arc<StorageEngine>, db: usize, parts: &[RespFrame]) -> Result<RespFrame> {
     if parts.len() < 4 {
@@ -100,13 +110,9 @@ pub fn handle_xrange(storage: &Arc<StorageEngine>, db: usize, parts: &[RespFrame
         _ => return Ok(RespFrame::error("ERR invalid start ID format")),
     };
     
-    let start = if start_str == "-" {
-        StreamId::min()
-    } else {
-        match StreamId::from_string(&start_str) {
-            Some(id) => id,
-            None => return Ok(RespFrame::error("ERR Invalid stream ID specified as stream command argument")),
-        }
+    let start = match parse_range_bound(&start_str) {
+        Some(id) => id,
+        None => return Ok(RespFrame::error("ERR Invalid stream ID specified as stream command argument")),
     };
     
     // Parse end ID
@@ -115,13 +121,9 @@ pub fn handle_xrange(storage: &Arc<StorageEngine>, db: usize, parts: &[RespFrame
         _ => return Ok(RespFrame::error("ERR invalid end ID format")),
     };
     
-    let end = if end_str == "+" {
-        StreamId::max()
-    } else {
-        match StreamId::from_string(&end_str) {
-            Some(id) => id,
-            None => return Ok(RespFrame::error("ERR Invalid stream ID specified as stream command argument")),
-        }
+    let end = match parse_range_bound(&end_str) {
+        Some(id) => id,
+        None => return Ok(RespFrame::error("ERR Invalid stream ID specified as stream command argument")),
     };
     
     // Parse optional COUNT - support multiple Redis client syntax patterns
@@ -193,13 +195,9 @@ pub fn handle_xrevrange(storage: &Arc<StorageEngine>, db: usize, parts: &[RespFr
         _ => return Ok(RespFrame::error("ERR invalid end ID format")),
     };
     
-    let end = if end_str == "+" {
-        StreamId::max()
-    } else {
-        match StreamId::from_string(&end_str) {
-            Some(id) => id,
-            None => return Ok(RespFrame::error("ERR Invalid stream ID specified as stream command argument")),
-        }
+    let end = match parse_range_bound(&end_str) {
+        Some(id) => id,
+        None => return Ok(RespFrame::error("ERR Invalid stream ID specified as stream command argument")),
     };
     
     // Parse start ID (second in XREVRANGE)
@@ -208,13 +206,9 @@ pub fn handle_xrevrange(storage: &Arc<StorageEngine>, db: usize, parts: &[RespFr
         _ => return Ok(RespFrame::error("ERR invalid start ID format")),
     };
     
-    let start = if start_str == "-" {
-        StreamId::min()
-    } else {
-        match StreamId::from_string(&start_str) {
-            Some(id) => id,
-            None => return Ok(RespFrame::error("ERR Invalid stream ID specified as stream command argument")),
-        }
+    let start = match parse_range_bound(&start_str) {
+        Some(id) => id,
+        None => return Ok(RespFrame::error("ERR Invalid stream ID specified as stream command argument")),
     };
     
     // Parse optional COUNT
